@@ -603,7 +603,7 @@ def build_comprehension(engine, ctx, e, gen, it, env, kind):
         if not b.ordered or not isinstance(it, SymSeq):
             raise EngineLimit("list comprehension over an unordered symbolic domain")
         if gen.ifs:
-            raise EngineLimit("filtered list comprehension over a symbolic sequence")
+            return filtered_comprehension(engine, ctx, e, gen, it, b, env)
         holder = {}
 
         def body():
@@ -617,12 +617,30 @@ def build_comprehension(engine, ctx, e, gen, it, env, kind):
 
 
 def seq_from_template(engine, ctx, src: SymSeq, b: Binding, v):
-    """A new sequence with the same length as `src` whose i-th element is v[i/b.const]."""
+    """A new sequence with the same length as `src` whose i-th element is v[i/b.const].
+       When the element expression depends on the source element only, the result is the canonical term
+       map!<hash>(src.arr) (a function of the source array, so equal comprehensions give equal terms)."""
+    import hashlib
+
     kind = kind_of_value(v)
     term = kind.unwrap(v)
+    i0 = b.consts[0]
+    esel = z3.Select(src.arr, i0)
+    E = z3.Const("map!elem", src.arr.sort().range())
+    t2 = z3.substitute(term, (esel, E))
+    if not _mentions(t2, i0) and not (ctx.bound and any(_mentions(t2, c) for c in ctx.bound)):
+        h = hashlib.sha256((t2.sexpr() + "|" + str(kind.sort())).encode()).hexdigest()[:10]
+        fn = z3.Function("map!%s" % h, src.arr.sort(), z3.ArraySort(z3.IntSort(), kind.sort()))
+        S = z3.Const("map!S", src.arr.sort())
+        i = z3.Int("map!i")
+        body = z3.Select(fn(S), i) == z3.substitute(t2, (E, z3.Select(S, i)))
+        ctx.add_axiom(z3.ForAll([S, i], body, patterns=[z3.Select(fn(S), i), z3.MultiPattern(z3.Select(S, i), fn(S))]))
+        return SymSeq(fn(src.arr), src.length, kind, fresh=True)
+    if getattr(ctx, "under_quantifier", False):
+        raise EngineLimit("non-canonical mapped sequence inside a quantified specification")
     arr = ctx.fresh("mapped", z3.ArraySort(z3.IntSort(), kind.sort()))
     i = z3.FreshConst(z3.IntSort(), "i")
-    sub = [(b.consts[0], i)]
+    sub = [(i0, i)]
     g = z3.And(*[z3.substitute(x, *sub) for x in b.guards])
     body = z3.Implies(g, z3.Select(arr, i) == z3.substitute(term, *sub))
     try:
@@ -984,3 +1002,79 @@ def argminmax_iter(engine, ctx, it, keyfn, is_min: bool):
     ctx.assume(mk_forall([i], z3.Implies(z3.And(0 <= i, i < it.length), cmp_all), patterns=[z3.Select(it.arr, i)]))
     ctx.assume(mk_forall([i], z3.Implies(z3.And(0 <= i, i < w), cmp_strict), patterns=[z3.Select(it.arr, i)]))
     return it.at(ctx, w)
+
+
+def filtered_comprehension(engine, ctx, e, gen, src: SymSeq, b: Binding, env):
+    """[f(x) for x in seq if p(x)] over a symbolic sequence: the order-preserving subsequence of the elements that
+       satisfy p (canonical: the same source and predicate give the same terms), then mapped by f."""
+    import hashlib
+
+    holder = {}
+
+    def body():
+        cenv = Env(env.module, env, env.finfo)
+        engine.assign(ctx, gen.target, b.value, cenv)
+        conds = []
+        for cond in gen.ifs:
+            c = lift_bool(lift_bool_truth(engine, ctx, engine.eval(ctx, cond, cenv)))
+            conds.append(c)
+        holder["cond"] = z3.And(*conds) if len(conds) > 1 else conds[0]
+
+    run_under_binding(engine, ctx, b, body)
+    i0 = b.consts[0]
+    sub = canonical_filter(ctx, src, holder["cond"], i0)
+    if isinstance(e.elt, ast.Name) and isinstance(gen.target, ast.Name) and e.elt.id == gen.target.id:
+        return sub
+    b2 = bind_domain(engine, ctx, sub)
+    holder2 = {}
+
+    def body2():
+        cenv = Env(env.module, env, env.finfo)
+        engine.assign(ctx, gen.target, b2.value, cenv)
+        holder2["v"] = engine.eval(ctx, e.elt, cenv)
+
+    run_under_binding(engine, ctx, b2, body2)
+    return seq_from_template(engine, ctx, sub, b2, holder2["v"])
+
+
+def canonical_filter(ctx, src: SymSeq, cond, i0):
+    """The order-preserving subsequence of `src` of the elements that satisfy a predicate of the element.
+       Canonical: flt!<hash>!arr(src.arr, n), a function of the source (equal filters give equal terms)."""
+    import hashlib
+
+    esel = z3.Select(src.arr, i0)
+    E = z3.Const("flt!elem", src.arr.sort().range())
+    c2 = z3.substitute(cond, (esel, E))
+    if _mentions(c2, i0):
+        raise EngineLimit("filter predicate depends on the position, not only on the element")
+    h = hashlib.sha256(c2.sexpr().encode()).hexdigest()[:10]
+    AS = src.arr.sort()
+    I_ = z3.IntSort()
+    farr = z3.Function("flt!%s!arr" % h, AS, I_, AS)
+    flen = z3.Function("flt!%s!len" % h, AS, I_, I_)
+    fidx = z3.Function("flt!%s!idx" % h, AS, I_, I_, I_)
+    finv = z3.Function("flt!%s!inv" % h, AS, I_, I_, I_)
+    S = z3.Const("flt!S", AS)
+    n, j, j2, i = z3.Ints("flt!n flt!j flt!j2 flt!i")
+    P = lambda el: z3.substitute(c2, (E, el))
+    sel = z3.Select
+    facts = [
+        z3.ForAll([S, n], z3.And(flen(S, n) >= 0, z3.Implies(n >= 0, flen(S, n) <= n)), patterns=[flen(S, n)]),
+        z3.ForAll([S, n, j], z3.Implies(z3.And(0 <= j, j < flen(S, n)),
+                                        z3.And(0 <= fidx(S, n, j), fidx(S, n, j) < n, P(sel(S, fidx(S, n, j))),
+                                               sel(farr(S, n), j) == sel(S, fidx(S, n, j)),
+                                               finv(S, n, fidx(S, n, j)) == j)),
+                  patterns=[sel(farr(S, n), j)]),
+        z3.ForAll([S, n, j, j2], z3.Implies(z3.And(0 <= j, j < j2, j2 < flen(S, n)), fidx(S, n, j) < fidx(S, n, j2)),
+                  patterns=[z3.MultiPattern(fidx(S, n, j), fidx(S, n, j2))]),
+        z3.ForAll([S, n, i], z3.Implies(z3.And(0 <= i, i < n, P(sel(S, i))),
+                                        z3.And(0 <= finv(S, n, i), finv(S, n, i) < flen(S, n),
+                                               fidx(S, n, finv(S, n, i)) == i,
+                                               sel(farr(S, n), finv(S, n, i)) == sel(S, i))),
+                  patterns=[z3.MultiPattern(sel(S, i), farr(S, n)), z3.MultiPattern(sel(S, i), flen(S, n))]),
+    ]
+    for f in facts:
+        ctx.add_axiom(f)
+    sub = SymSeq(farr(src.arr, src.length), flen(src.arr, src.length), src.kind, fresh=True)
+    sub.filter_of = (src, P, lambda t: fidx(src.arr, src.length, t), lambda t: finv(src.arr, src.length, t))
+    return sub
